@@ -6,15 +6,15 @@
 EXTENDS Sources, Json, IOUtils, TLCExt
 
 Cases == JsonDeserialize(IOEnv.TRACE_FILE)
-VARIABLE i
-Init == i \in 1..Len(Cases)
-Next == UNCHANGED i
+VARIABLE tidx
+Init == tidx \in 1..Len(Cases)
+Next == UNCHANGED tidx
 Say(idx, clause) == PrintT(<<"R", "case", idx, clause>>)
 Check ==
-  LET c == Cases[i]
+  LET c == Cases[tidx]
       ref == Fold(c.s)
       alg == AlgFinal(c.s)
-  IN /\ (c.obs = ref) \/ Say(i, IF EnvConfigAppend(c.s) /\ c.obs = alg THEN "ref-dev-as-alg" ELSE "ref")
-     /\ (c.obs = alg) \/ Say(i, "alg")
+  IN /\ (c.obs = ref) \/ Say(tidx, IF EnvConfigAppend(c.s) /\ c.obs = alg THEN "ref-dev-as-alg" ELSE "ref")
+     /\ (c.obs = alg) \/ Say(tidx, "alg")
 Inv == Check \/ TRUE
 =============================================================================
